@@ -8,11 +8,17 @@ From HV Require Export Provider.
 Record case := { c_self : member; c_hist : list pmsg; c_obs : list pobs }.
 
 (* correspondence: the transcription of SelfManaged.Receive (repaired)
-   computes what the implementation showed *)
-Definition corr (c : case) : bool := all2 pobs_eqb (model_prun (c_self c) (c_hist c)) (c_obs c).
+   computes what the implementation showed.  Where several members sit
+   behind the reported address, the member GetByHost picks is the one the
+   observation shows disappearing ([model_prun_driven]); with at most one
+   member per address this is the canonical run [model_prun]. *)
+Definition corr (c : case) : bool :=
+  all2 pobs_eqb (model_prun_driven (c_self c) (c_hist c) (c_obs c)) (c_obs c).
 
 (* oracle: the implementation's observations are those of the id ↦ address
-   reference ([poracle_holds_of_model] in ProviderProofs: true of every model run) *)
+   reference under the same reading of the choice
+   ([poracle_holds_of_model] in ProviderProofs: true of every model run,
+   whatever GetByHost chooses) *)
 Definition oracle (c : case) : bool := poracle_on (c_self c) (c_hist c) (c_obs c).
 
 (* proof-relevant situations reached, for the evidence histogram:
@@ -20,7 +26,10 @@ Definition oracle (c : case) : bool := poracle_on (c_self c) (c_hist c) (c_obs c
    adds a member, 4 list that adds nothing, 5 report for a member's address,
    6 report for an address never seen, 7 report for the address of a node
    that is not (or no longer) in the list, 8 known id offered under another
-   address (ignored), 9 report for the node's own address, 10 empty list *)
+   address (ignored), 9 report for the node's own address, 10 empty list,
+   11 report for an address with two or more members behind it, 12 report
+   for a shared address (two or more ids of the directory) that is down to
+   its last member *)
 Definition branches_step (self : member) (dir : list member) (s : pstate) (msg : pmsg) : list nat :=
   let stale m := match s !! mid m with Some x => negb (mhost x =? mhost m) | None => false end in
   match msg with
@@ -31,19 +40,25 @@ Definition branches_step (self : member) (dir : list member) (s : pstate) (msg :
       (if existsb stale l then [8] else []) ++ (if decide (l = []) then [10] else [])
   | LeaveAddr a =>
       match get_by_host s a with
-      | Some m => [5] ++ (if decide (a = mhost self) then [9] else [])
+      | Some m => [5] ++ (if decide (a = mhost self) then [9] else []) ++
+                  (if decide (2 ≤ size (behind a s)) then [11] else
+                   if decide (2 ≤ size (member_set (filter (λ x, mhost x = a) dir))) then [12] else [])
       | None => if decide (a ∈ mhost <$> dir) then [7] else [6]
       end
   end.
 
-Fixpoint branches_run (self : member) (dir : list member) (s : pstate) (hist : list pmsg) : list nat :=
+Fixpoint branches_run (self : member) (dir : list member) (s : pstate) (hist : list pmsg)
+    (os : list pobs) : list nat :=
   match hist with
   | [] => []
-  | msg :: hist' => branches_step self dir s msg ++ branches_run self dir (pstep s msg).1 hist'
+  | msg :: hist' =>
+      branches_step self dir s msg ++
+      branches_run self dir (pstep_ch (hd_choice_of (sids s) os) s msg).1 hist' (tail os)
   end.
 
 Definition branches (c : case) : list nat :=
-  remove_dups (branches_run (c_self c) (directory (c_self c) (c_hist c)) (pinit (c_self c)) (c_hist c)).
+  remove_dups (branches_run (c_self c) (directory (c_self c) (c_hist c)) (pinit (c_self c)) (c_hist c)
+                            (tail (c_obs c))).
 
 Fixpoint failing {A} (f : A → bool) (i : nat) (l : list A) : list nat :=
   match l with [] => [] | a :: l' => (if f a then [] else [i]) ++ failing f (S i) l' end.
@@ -56,12 +71,28 @@ Definition report (cs : list case) : list nat * list nat * list (list nat) :=
 Example report_smoke :
   let self := {| mid := 0; mhost := 0; mkinds := [] |} in
   let peer := {| mid := 1; mhost := 1; mkinds := [] |} in
+  let q i := {| mid := i; mhost := 7; mkinds := [] |} in
   let o a r l p := {| p_agent := a; p_reply := r; p_list := l; p_panic := p |} in
   report [ {| c_self := self; c_hist := [Handshake peer 1; LeaveAddr 9];
               c_obs := [o [[0]] None [0] false; o [[0; 1]] (Some [0; 1]) [0; 1] false;
                         o [] None [0; 1] false] |};
            {| c_self := self; c_hist := [Handshake peer 1; LeaveAddr 9];
               c_obs := [o [[0]] None [0] false; o [[0; 1]] (Some [0; 1]) [0; 1] false;
-                        o [[0]] None [0] true] |} ]
-  = ([1], [1], [[1; 6]; [1; 6]]).
+                        o [[0]] None [0] true] |};
+           (* two ids behind address 7, two reports: either order is fine ... *)
+           {| c_self := self; c_hist := [MembersMsg [q 1; q 2]; LeaveAddr 7; LeaveAddr 7];
+              c_obs := [o [[0]] None [0] false; o [[0; 1; 2]] None [0; 1; 2] false;
+                        o [[0; 2]] None [0; 2] false; o [[0]] None [0] false] |};
+           {| c_self := self; c_hist := [MembersMsg [q 1; q 2]; LeaveAddr 7; LeaveAddr 7];
+              c_obs := [o [[0]] None [0] false; o [[0; 1; 2]] None [0; 1; 2] false;
+                        o [[0; 1]] None [0; 1] false; o [[0]] None [0] false] |};
+           (* ... but the second report must remove the other one *)
+           {| c_self := self; c_hist := [MembersMsg [q 1; q 2]; LeaveAddr 7; LeaveAddr 7];
+              c_obs := [o [[0]] None [0] false; o [[0; 1; 2]] None [0; 1; 2] false;
+                        o [[0; 1]] None [0; 1] false; o [] None [0; 1] false] |};
+           (* and a report may not remove a member at another address *)
+           {| c_self := self; c_hist := [MembersMsg [q 2; peer]; LeaveAddr 7];
+              c_obs := [o [[0]] None [0] false; o [[0; 1; 2]] None [0; 1; 2] false;
+                        o [[0; 2]] None [0; 2] false] |} ]
+  = ([1; 4; 5], [1; 4; 5], [[1; 6]; [1; 6]; [3; 11; 5; 12]; [3; 11; 5; 12]; [3; 11; 5; 12]; [3; 5]]).
 Proof. by vm_compute. Qed.
